@@ -318,6 +318,233 @@ def register(OPS, drv):
             w.close()
         return {"root": w.root, "results": res}
 
+    # ------------------------------------------------------------------------
+    # several transfers in flight at once (servertype = ThreadingTCPServer: one thread per connection)
+    # ------------------------------------------------------------------------
+    class Lockstep:
+        """Deterministic scheduler of N concurrent transfers.  Exactly one transfer runs at a time; a
+        transfer gives up the processor only in the middle of a write() (where a real sendall() blocks
+        on a full send buffer).  Who runs next follows the policy:
+          roundrobin  the next running transfer in turn
+          burst<k>    the transfer that gets its turn passes k blocking points before it hands over
+                      (the others stay suspended in the middle of their write meanwhile)
+          random      seeded choice among the other running transfers, seeded quantum 1..5"""
+
+        def __init__(self, n, policy="roundrobin", seed=0):
+            import random
+            self.cond = threading.Condition()
+            self.n = n
+            self.done = [False] * n
+            self.turn = 0
+            self.quantum = 1            # the first transfer hands over at its first blocking point
+            self.policy = policy
+            self.rng = random.Random(seed)
+            self.stalled = False
+
+        def _next(self, me, finished=False):
+            """who runs now; self.quantum = how many blocking points that transfer passes before it hands over"""
+            alive = [o for o in range(self.n) if not self.done[o]]
+            if not alive:
+                return None
+            if not finished and self.quantum > 1:
+                self.quantum -= 1
+                return me
+            others = [o for o in alive if o != me] or alive
+            if self.policy == "random":
+                self.quantum = self.rng.randrange(1, 6)
+                return self.rng.choice(others)
+            self.quantum = int(self.policy[5:] or 2) if self.policy.startswith("burst") else 1
+            later = [o for o in others if o > me]
+            return later[0] if later else others[0]
+
+        def _wait_turn(self, me):
+            if not self.cond.wait_for(lambda: self.turn == me, timeout=5.0):
+                self.stalled = True                 # scheduler broke down: go on unscheduled
+
+        def start(self, me):
+            with self.cond:
+                self._wait_turn(me)
+
+        def step(self, me):
+            with self.cond:
+                self.turn = self._next(me)
+                self.cond.notify_all()
+                self._wait_turn(me)
+
+        def finish(self, me):
+            with self.cond:
+                self.done[me] = True
+                if self.turn == me or self.turn is None:
+                    self.turn = self._next(me, finished=True)
+                self.cond.notify_all()
+
+    class SlowPeerSink:
+        """wfile of a connection whose peer reads slowly: write(block) transmits the first `split`
+        part of the block, then the send buffer is full and the call blocks (the other transfers run
+        on), then the rest of the block is transmitted -- what socket.sendall() does.  The block is
+        only read while write() is running; nothing is kept after it returns."""
+
+        def __init__(self, me, sync, split):
+            self.me, self.sync, self.split = me, sync, split
+            self.received = bytearray()
+            self.final = None
+
+        def write(self, data):
+            n = len(data)
+            k = {"half": n // 2, "late": 0, "byte": min(1, n), "most": max(n - 1, 0), "third": n // 3}.get(self.split, n)
+            self.received += bytes(data[:k])
+            if self.split != "now":
+                self.sync.step(self.me)
+            self.received += bytes(data[k:])
+            return n
+
+        def flush(self):
+            pass
+
+        def writable(self):
+            return True
+
+        def close(self):
+            self.final = bytes(self.received)
+
+        def getvalue(self):
+            return bytes(self.received)
+
+    def op_concurrent(job):
+        """groups: [{split, requests: [{data, tls}]}] -- the requests of a group are served at the same
+        time, each by its own thread through the real GopherRequestHandler (as ThreadingTCPServer does),
+        into SlowPeerSinks scheduled in lockstep."""
+        import io
+        w = drv.World(job)
+        try:
+            warm = job.get("warmup")
+            if warm:                                    # lazily initialised module state: set up by a first request
+                drv.serve_once(w.config, drv.s2b(warm["data"]), tls=warm.get("tls", False))
+            out = []
+            for g in job["groups"]:
+                reqs = g["requests"]
+                n = len(reqs)
+                sync = Lockstep(n, g.get("policy", "roundrobin"), g.get("seed", 0))
+                sinks = [SlowPeerSink(i, sync, g.get("split", "half")) for i in range(n)]
+                excs = [None] * n
+                gate = threading.Barrier(n)
+
+                def run_one(i):
+                    try:
+                        r = reqs[i]
+                        rfile = io.BytesIO(drv.s2b(r["data"]))
+                        req = (drv.MockSSLRequest if r.get("tls") else drv.MockRequest)(rfile, sinks[i])
+                        h = drv.Handler(req, ("10.77.77.77", "7777"), drv.FakeServer(w.config, port=drv.SERVER_PORT))
+                        gate.wait(10)
+                        sync.start(i)
+                        try:
+                            h.handle()
+                        except BaseException as e:  # what would reach socketserver
+                            excs[i] = type(e).__name__ + ": " + str(e)
+                        try:
+                            h.finish()
+                        except BaseException:
+                            pass
+                    except BaseException as e:
+                        excs[i] = excs[i] or ("setup:" + type(e).__name__ + ": " + str(e))
+                    finally:
+                        sync.finish(i)
+
+                ths = [threading.Thread(target=run_one, args=(i,), daemon=True) for i in range(n)]
+                for t in ths:
+                    t.start()
+                for t in ths:
+                    t.join(30)
+                out.append({"stalled": sync.stalled or any(t.is_alive() for t in ths),
+                            "results": [{"out_b64": base64.b64encode(bytes(sk.received)).decode("ascii"), "exc": excs[i],
+                                         "log": [], "secs": 0} for i, sk in enumerate(sinks)]})
+            return {"groups": out}
+        finally:
+            w.close()
+
+    def op_live_concurrent(job):
+        """The real ThreadingTCPServer on an ephemeral port; the requests of a group are sent on separate
+        connections at the same moment by clients with a small receive buffer that first do not read at
+        all (the handler threads run into full send buffers), then read small pieces in turn, then drain."""
+        import ssl
+        import time
+        import pygopherd.server as pserver
+        spec = dict(job)
+        cfg = dict(spec.get("config") or {})
+        pg = dict(cfg.get("pygopherd", {}))
+        pg.update({"servername": "gopher.example", "advertisedport": "70", "timeout": "20", "servertype": "ThreadingTCPServer"})
+        cfg["pygopherd"] = pg
+        spec["config"] = cfg
+        w = drv.World(spec)
+        ctx = ssl.create_default_context(ssl.Purpose.CLIENT_AUTH)
+        ctx.load_cert_chain(os.path.join(drv.REPO, "testdata", "demo.crt"), os.path.join(drv.REPO, "testdata", "demo.key"))
+        cctx = ssl.SSLContext(ssl.PROTOCOL_TLS_CLIENT)
+        cctx.check_hostname = False
+        cctx.verify_mode = ssl.CERT_NONE
+        srv = pserver.ThreadingTCPServer(w.config, ("127.0.0.1", 0), pserver.GopherRequestHandler, context=ctx)
+        srv.daemon_threads = True
+        if job.get("sndbuf"):
+            # the operating system's send buffer for accepted connections (inherited from the listening socket;
+            # the equivalent of a small net.ipv4.tcp_wmem): documents larger than it make a handler block in write()
+            srv.socket.setsockopt(socket.SOL_SOCKET, socket.SO_SNDBUF, int(job["sndbuf"]))
+        th = threading.Thread(target=srv.serve_forever, kwargs={"poll_interval": 0.05}, daemon=True)
+        th.start()
+        out = []
+        try:
+            for g in job["groups"]:
+                socks, errs, bufs = [], [], []
+                for r in g["requests"]:
+                    err = None
+                    s = socket.socket(socket.AF_INET, socket.SOCK_STREAM)
+                    try:
+                        s.setsockopt(socket.SOL_SOCKET, socket.SO_RCVBUF, int(g.get("rcvbuf", 8192)))
+                        s.settimeout(20)
+                        s.connect(srv.server_address[:2])
+                        if r.get("tls"):
+                            s = cctx.wrap_socket(s)
+                        s.sendall(drv.s2b(r["data"]))
+                    except Exception as e:
+                        err = type(e).__name__ + ": " + str(e)
+                    socks.append(s)
+                    errs.append(err)
+                    bufs.append(bytearray())
+                time.sleep(float(g.get("stall", 0.3)))
+                live = [e is None for e in errs]
+                rounds = 0
+                piece = int(g.get("piece", 16384))
+                while any(live):
+                    for i, s in enumerate(socks):
+                        if not live[i]:
+                            continue
+                        try:
+                            d = s.recv(piece if rounds < int(g.get("slow_rounds", 30)) else 1 << 18)
+                        except Exception as e:
+                            errs[i] = type(e).__name__ + ": " + str(e)
+                            d = b""
+                        if not d:
+                            live[i] = False
+                            continue
+                        bufs[i] += d
+                    rounds += 1
+                    if rounds < int(g.get("slow_rounds", 30)):
+                        time.sleep(0.004)
+                for s in socks:
+                    try:
+                        s.close()
+                    except Exception:
+                        pass
+                out.append({"stalled": False,
+                            "results": [{"out_b64": base64.b64encode(bytes(b)).decode("ascii"), "exc": e, "log": [], "secs": 0}
+                                        for b, e in zip(bufs, errs)]})
+        finally:
+            srv.shutdown()
+            srv.server_close()
+            th.join(timeout=5)
+            w.close()
+        return {"groups": out}
+
+    OPS["c04_concurrent"] = op_concurrent
+    OPS["c04_live_concurrent"] = op_live_concurrent
     OPS["c04_live"] = op_live
     OPS["c04_history"] = op_history
     OPS["c04_faults"] = op_faults
